@@ -315,10 +315,11 @@ func DrawExceptionChain(c *choice.Stream) []refproto.Exception {
 
 // Recorder collects everything observable about a query, in order.
 type Recorder struct {
-	Events []string
-	FailAt map[string]int // callback name -> invocation number (1-based) that fails
-	Calls  map[string]int
-	OnCall func(name string, n int) // extra behaviour (cancel, ...)
+	Events   []string
+	FailAt   map[string]int // callback name -> invocation number (1-based) that fails
+	FailWith error          // what the failing invocation returns (ErrInjected when nil)
+	Calls    map[string]int
+	OnCall   func(name string, n int) // extra behaviour (cancel, ...)
 }
 
 var ErrInjected = fmt.Errorf("injected callback failure")
@@ -333,6 +334,9 @@ func (rc *Recorder) hit(name string) error {
 	}
 	if rc.FailAt != nil && rc.FailAt[name] == rc.Calls[name] {
 		rc.Events = append(rc.Events, "fail:"+name)
+		if rc.FailWith != nil {
+			return rc.FailWith
+		}
 		return ErrInjected
 	}
 	return nil
